@@ -65,6 +65,18 @@ var tds = []tdesc{
 	{"sha1", "", "a\x00", false},
 }
 
+// escape sequences of the decoders; every prefix of each is tried (truncated escapes at every offset)
+var escapeTemplates = []string{
+	`\x41`, `\xfF`, `\u0041`, `\uFF21`, `\uff5e`, `\101`, `\377`, `\400`, `\8`, `\n`, `\\`, `\X41`, `\0`,
+	"%41", "%fF", "%u0041", "%U00e9", "%uFF21", "%%41", "%4%41", "+%2B",
+	"&amp;", "&#65;", "&#x41;", "&#0", "&nvge;", "&lt", "&#xZ;",
+	"/*a*/b", "<!--a-->b", "--a", "#a", "a/**/", "*/a", "-->",
+	"\\1f ", "\\00ff21 x", "\\\n",
+	"QUJD", "QUI=", "QQ==", "QU-_", "4142", "414",
+	"\xc2\xa0", "\xe2\x82\xac", "\xf0\x9f\x98\x80", "\xed\xa0\x80", "\xc0\xaf",
+	"/a/../b", "a/./b//c", "\\a\\..\\b",
+}
+
 type caseJSON struct {
 	Kind    string   `json:"kind"` // single | list
 	T       []string `json:"t"`
@@ -302,6 +314,25 @@ func Run(cfg vh.Config) (*vh.Result, error) {
 			// one length beyond the exhaustive scope, sampled
 			for i := 0; i < cfg.Pick(150, 3000); i++ {
 				addSingle(td, randFrom(rng, td.Alphabet, maxLen+1+rng.Intn(3)))
+			}
+			// every truncation of every escape sequence, at the end of the input and followed by a byte
+			for _, tmpl := range escapeTemplates {
+				// quick tier: only the templates that start with one of this transformation's metacharacters
+				if !cfg.Thorough() && !strings.ContainsRune(td.Alphabet, rune(tmpl[0])) && tmpl[0] < 0x80 {
+					continue
+				}
+				for cut := 1; cut <= len(tmpl); cut++ {
+					pre := tmpl[:cut]
+					addSingle(td, pre)
+					addSingle(td, "a"+pre)
+					addSingle(td, pre+"z")
+					if cfg.Thorough() {
+						addSingle(td, pre+pre)
+						addSingle(td, pre+" ")
+						addSingle(td, " "+pre+"0")
+						addSingle(td, pre+"\x00")
+					}
+				}
 			}
 			// %uXXXX escapes (best-fit table, full-width folding, truncations) for urlDecodeUni
 			if td.Go == "urlDecodeUni" {
